@@ -20,6 +20,7 @@ import (
 	"io"
 	"os"
 	"os/exec"
+	gopath "path"
 	"path/filepath"
 	"sort"
 	"strconv"
@@ -315,7 +316,20 @@ func cmdCheck(id string, args []string) int {
 	for _, v := range merged.Violations {
 		v.TreeHash = s.TreeHash
 		path := writeReplay(replayDir, v)
-		if f, ok := known[v.Signature]; ok {
+		f, ok := known[v.Signature]
+		if !ok {
+			// a known entry may use * for the part of a signature that names HOW the same defect was
+			// reached (e.g. which polluter template redefined the constructor)
+			for pat, kf := range known {
+				if strings.Contains(pat, "*") {
+					if m, _ := gopath.Match(pat, v.Signature); m {
+						f, ok = kf, true
+						break
+					}
+				}
+			}
+		}
+		if ok {
 			fmt.Printf("KNOWN-FINDING: property=%s %s — %s (seen %d×, replay=%s)\n", id, v.Signature, f.What, v.Count, path)
 			knownSeen = append(knownSeen, v.Signature)
 			continue
